@@ -35,6 +35,10 @@ CLAIMED = {
          "generated search for panics, aborts, hangs and blow-ups of parse + infoset construction + compact and pretty printing in both views; every case is announced to the parent before it runs so that a worker death or an exhausted CPU budget is attributed to it; adversarial shape families report CPU time per size",
          "trusted: the worker/parent crash attribution in harness/src/engine; CPU-time thresholds cannot prove polynomial behaviour",
          "DESIGN.md section 5, C03"),
+ "C14": ("stateful property-based testing (proptest): generated edit histories; order-key invariant over a pre-order walk and differential XPath queries against a re-parse of the serialisation",
+         "generated search: after every successful edit the order keys along a pre-order walk must be non-zero, distinct and increasing, and a battery of 24 node-set queries must select the same nodes in the same order on the edited document as on from_raw(document.to_string())",
+         "trusted: path-based node identification across the two documents; comparison only where the live view and the re-parsed view coincide (no adjacent/empty text nodes); DTD-defaulted attributes carry no key",
+         "DESIGN.md section 5, C14"),
 }
 ALL = ["C%02d" % i for i in range(1, 20)]
 PENDING_REASON = "check not built yet in this snapshot of /verif (work in progress; DESIGN.md section 5 describes the planned generated-search check)"
